@@ -4,8 +4,11 @@ name=$1; shift
 cd /verif
 git -C /repo diff --quiet || { echo "/repo has uncommitted changes"; exit 3; }
 git -C /repo apply /verif/seeded/$name/patch.diff || exit 3
+export VERIF_EVIDENCE_DIR=/verif/.work/seed_evidence   # never overwrite the committed evidence with a mutated run
 for id in "$@"; do
   ./check $id quick 2>&1 | tail -3
   echo "exit=$?"
 done
 git -C /repo checkout -- .
+# regenerated tables must describe the clean tree again
+python3 /verif/tools/extract_npz_keys.py >/dev/null; python3 /verif/tools/extract_unit_sites.py >/dev/null
